@@ -267,6 +267,7 @@ func TestC02(t *testing.T) {
 	run := rt.Start(t, "C02")
 	defer run.Finish()
 	r := run.Rand()
+	c02RemovalDuringDispatch(run, r.Fork())
 
 	// ---- part A: outcome vectors x thresholds x cancel points ---------------------------------
 	// every batch enumerates a slice of the vector space (vectors are assigned round-robin).
